@@ -348,9 +348,43 @@ func compare(i int, want, got []Rec, problems []string) *engMismatch {
 	return nil
 }
 
+// burstProgram has one handler schedule a burst of 40-300 events of one class (so the
+// queue's backing storage grows and later shrinks), most at a few shared instants, some of
+// which schedule follow-ups: the heap must keep (time, schedule order) through growth,
+// drain and refill.
+func burstProgram(rng *rand.Rand, boundaries bool) (program, []int) {
+	p := program{kids: map[int][]child{}}
+	p.roots = []child{{1, 0, false}, {2, 1, rng.Intn(2) == 0}}
+	next := 3
+	n := 40 + rng.Intn(260)
+	sec := rng.Intn(3) == 0
+	for i := 0; i < n; i++ {
+		p.kids[1] = append(p.kids[1], child{next, 1 + rng.Intn(4), sec != (rng.Intn(10) == 0)})
+		next++
+	}
+	// a tail of follow-ups scheduled while the burst drains
+	for i := 0; i < 30; i++ {
+		parent := 3 + rng.Intn(n)
+		p.kids[parent] = append(p.kids[parent], child{next, rng.Intn(3), rng.Intn(2) == 0})
+		next++
+	}
+	calls := []int{}
+	if boundaries {
+		b := 0
+		for c := rng.Intn(4); c > 0; c-- {
+			b += rng.Intn(4)
+			calls = append(calls, b)
+		}
+	}
+	return p, append(calls, infBound)
+}
+
 // randomProgram builds a tie-heavy random handler program: children at dt in a small
 // range so many events share an instant, chains of same-instant primaries/secondaries.
 func randomProgram(rng *rand.Rand, maxEvents int, boundaries bool) (program, []int) {
+	if rng.Intn(4) == 0 {
+		return burstProgram(rng, boundaries)
+	}
 	p := program{kids: map[int][]child{}}
 	n := 20 + rng.Intn(maxEvents-19)
 	next := 1
